@@ -160,7 +160,15 @@ def ob_slice(ctx):
     b = None if P["b_none"] else ctx.mk.int("b")
     ann = {"topology": "circular", "molecule_type": "DNA"} if P["ann"] else {}
     f = build_feature(st, [(0, 1, 1)], "misc", {"q": ["v"]})
-    rec = st.record.CircularRecord(st.Seq(r), id="rid", name="rn", features=[f], annotations=ann)
+    if P.get("history"):
+        # the record was sliced before with the same bounds while it held other letters, then edited in place
+        r0 = ctx.mk.seq("r0", n, "ACGT")
+        rec = st.record.CircularRecord(st.Seq(r0), id="rid", name="rn", features=[], annotations=dict(ann))
+        rec[a:b]
+        rec.seq = st.Seq(r)
+        rec.features.append(f)
+    else:
+        rec = st.record.CircularRecord(st.Seq(r), id="rid", name="rn", features=[f], annotations=ann)
     out = rec[a:b]
     ctx.observe("out", out)
     ctx.require(isinstance(out, st.SeqRecord) and not isinstance(out, st.record.CircularRecord), "slice-type")
@@ -266,6 +274,8 @@ def obligations(tier, seed):
                 continue
             obs.append(Ob("slice n=%d a=%s b=%s" % (n, "None" if a_none else "sym", "None" if b_none else "sym"),
                           ob_slice, dict(n=n, a_none=a_none, b_none=b_none, ann=bool(n % 2)), samples=8, cost=n * n))
+    obs.append(Ob("slice of a record that was sliced before and edited in place n=5", ob_slice,
+                  dict(n=5, a_none=False, b_none=False, ann=True, history=True), samples=8, cost=60, group="history"))
     for n, ann in ((7, True), (12, False)):
         obs.append(Ob("slices with a step n=%d" % n, ob_slice_step, dict(n=n, ann=ann), samples=12, cost=40, group="step"))
     obs.append(Ob("wrapping copies", ob_copy, {}, samples=2, cost=1))
